@@ -431,6 +431,47 @@ def branch_conditions(cfg: CFG, target: int) -> list[tuple[ast.AST, bool]]:
     return out
 
 
+def reaching_assignments(cfg: CFG, target: int, name: str) -> list[ast.AST] | None:
+    """the statements `name = ...` (plain, annotated or augmented assignment, with-as, for target) whose binding can reach
+    `target` along normal edges; None when some path from the entry reaches `target` with no binding of `name` at all"""
+    def binds(n: Node) -> bool:
+        a = n.ast
+        if a is None:
+            return False
+        if n.kind == "stmt" and isinstance(a, (ast.Assign, ast.AnnAssign, ast.AugAssign)):
+            tg = a.targets if isinstance(a, ast.Assign) else [a.target]
+            return any(isinstance(x, ast.Name) and x.id == name for t in tg for x in ast.walk(t) if isinstance(getattr(x, "ctx", None), ast.Store))
+        if n.kind == "iter" and n.owner is not None and isinstance(n.owner, (ast.For, ast.AsyncFor)):
+            return any(isinstance(x, ast.Name) and x.id == name for x in ast.walk(n.owner.target))
+        if n.kind == "with" and isinstance(a, (ast.With, ast.AsyncWith)):
+            return any(isinstance(x, ast.Name) and x.id == name for i in a.items if i.optional_vars is not None for x in ast.walk(i.optional_vars))
+        return False
+
+    pred: dict[int, list[int]] = {}
+    for s, outs in cfg.succ.items():
+        for d, lab in outs:
+            if lab != "x":
+                pred.setdefault(d, []).append(s)
+    out: list[ast.AST] = []
+    unbound = False
+    seen = {target}
+    stack = list(pred.get(target, []))
+    while stack:
+        n = stack.pop()
+        if n in seen:
+            continue
+        seen.add(n)
+        if binds(cfg.nodes[n]):
+            a = cfg.nodes[n].ast
+            if a is not None and all(a is not o for o in out):
+                out.append(a)
+            continue
+        if n == cfg.entry:
+            unbound = True
+        stack.extend(pred.get(n, []))
+    return None if unbound else out
+
+
 def atomic_conditions(cfg: CFG, target: int) -> list[tuple[ast.AST, bool]]:
     """branch_conditions with `A and B` (true) and `A or B` (false) split into their operands, recursively; an operand
     that is itself a test keeps its form (a leading `not` is not stripped)"""
